@@ -1139,6 +1139,18 @@ class Function(Ring):
     def sign(self):
         return Function.pushforward(algopy.sign, [self])
 
+    @classmethod
+    def minimum(cls, x, y):
+        x = cls.totype(x)
+        y = cls.totype(y)
+        return Function.pushforward(algopy.minimum, [x, y])
+
+    @classmethod
+    def maximum(cls, x, y):
+        x = cls.totype(x)
+        y = cls.totype(y)
+        return Function.pushforward(algopy.maximum, [x, y])
+
     def sum(self, axis=None, dtype=None, out=None):
         if out is not None:
             raise NotImplementedError('the out argument is not supported')
